@@ -215,12 +215,15 @@ func writeWhileBorrowed() bool {
 // packing skips bytes (must be refused: 0) and on their harmless look-alikes (1).
 func admissionOfSkipWriters() []int {
 	v6, mapped, v4 := net.ParseIP("2001:db8::1"), net.ParseIP("192.0.2.33"), net.IPv4(192, 0, 2, 33).To4()
+	near := net.ParseIP("2001:db8::ffff:c000:201") // ff:ff in octets 10-11, NOT IPv4-mapped
 	h := func(t uint16) dns.RR_Header { return dns.RR_Header{Name: "x.", Rrtype: t, Class: dns.ClassINET} }
 	rrs := []dns.RR{
 		&dns.A{Hdr: h(dns.TypeA), A: v6}, &dns.A{Hdr: h(dns.TypeA), A: mapped}, &dns.A{Hdr: h(dns.TypeA), A: v4}, &dns.A{Hdr: h(dns.TypeA)},
 		&dns.L32{Hdr: h(dns.TypeL32), Locator32: v6}, &dns.L32{Hdr: h(dns.TypeL32), Locator32: v4},
 		&dns.IPSECKEY{Hdr: h(dns.TypeIPSECKEY), GatewayType: dns.IPSECGatewayIPv4, GatewayAddr: v6}, &dns.IPSECKEY{Hdr: h(dns.TypeIPSECKEY), GatewayType: dns.IPSECGatewayIPv6, GatewayAddr: v6},
 		&dns.AMTRELAY{Hdr: h(dns.TypeAMTRELAY), GatewayType: dns.AMTRELAYIPv4, GatewayAddr: v6}, &dns.AMTRELAY{Hdr: h(dns.TypeAMTRELAY), GatewayType: dns.AMTRELAYIPv6, GatewayAddr: v6},
+		&dns.A{Hdr: h(dns.TypeA), A: near}, &dns.L32{Hdr: h(dns.TypeL32), Locator32: near}, &dns.A{Hdr: h(dns.TypeA), A: net.ParseIP("::fffe:c000:201")},
+		&dns.A{Hdr: h(dns.TypeA), A: net.ParseIP("::ffff:c000:201")}, &dns.A{Hdr: h(dns.TypeA), A: net.IPv6zero}, &dns.A{Hdr: h(dns.TypeA), A: net.ParseIP("1::ffff:c000:201")},
 	}
 	var out []int
 	for _, rr := range rrs {
